@@ -63,7 +63,7 @@ def inert_element(rng, spec):
     g = spec['grid']; f = gen.UNIT_F[g['unit']]
     sp = copy.deepcopy(spec)
     nodes = sorted({n for a in spec['assets'] for n in (a.get('nodes') or [])})
-    kind = gen.pick(rng, ['contract', 'simplecontract', 'transport', 'storage', 'multi', 'orderbook', 'order_in_book', 'order_in_book', 'take', 'take', 'take', 'coarse', 'plant', 'scaled', 'exttransport'])
+    kind = gen.pick(rng, ['contract', 'simplecontract', 'transport', 'storage', 'multi', 'orderbook', 'order_in_book', 'order_in_book', 'take', 'take', 'take', 'take', 'take', 'coarse', 'plant', 'scaled', 'exttransport'])
     s, e, place = outside_window(rng, g)
     name = 'inert'
     a = None
@@ -115,7 +115,7 @@ def inert_element(rng, spec):
             key = gen.pick(rng, [k for k in ('min_take', 'max_take') if x.get(k)] or ['min_take', 'max_take'])      # preferably next to an existing period
             sign = 1. if x['type'] == 'ExtendedTransport' else (-1. if key == 'min_take' else 1.)
             tk = x.get(key) or {'start': [], 'end': [], 'values': []}
-            pos_ = int(rng.integers(0, len(tk['start']) + 1))        # listed before, between or after the existing periods (lists need not be in time order)
+            pos_ = int(rng.integers(0, len(tk['start']) + 1)) if rng.random() < 0.5 else 0        # listed before, between or after the existing periods (lists need not be in time order)
             tk = {'start': list(tk['start'][:pos_]) + [s] + list(tk['start'][pos_:]), 'end': list(tk['end'][:pos_]) + [e] + list(tk['end'][pos_:]),
                   'values': list(tk['values'][:pos_]) + [sign * 3.] + list(tk['values'][pos_:])}
             x[key] = tk
